@@ -1,8 +1,6 @@
 CONSTANTS
   MaxAckSet = 50
-  Points = @POINTS@
-  Combs = @COMBS@
-  Bound = @BOUND@
+  Modes <- @MODES@
 INIT Init
 NEXT Next
 INVARIANTS Emit Exact Represented Canonical AckSound NackSound CutOffs AckComplete NackComplete
